@@ -13,6 +13,7 @@ GEN_DIR = os.path.join(VERIF, "lean", "PySMT", "Gen")
 # property id -> list of generator module names (tools/gen_<name>.py, each with
 # `generate(repo) -> {filename: lean_source}`)
 GENERATORS = {
+    "C12": ["operators"],
     "C06": ["infix"],
     "C13": ["logics"],
     "C07": ["printerops"],
